@@ -753,7 +753,16 @@ class Module(HasAccessibles):
                 for mobj in modules:
                     # TODO when needed: here we might add a call to a method :meth:`beforeWriteInit`
                     mobj.writeInitParams()
-                    mobj.initialReads()
+                    try:
+                        mobj.initialReads()
+                    except CommunicationFailedError:
+                        raise  # handled below like a failing initial poll
+                    except Exception as e:
+                        # any other error in initialReads must not kill the poll thread
+                        if isinstance(e, SECoPError):
+                            mobj.log.error('initialReads: %s', e.format(False))
+                        else:
+                            mobj.log.error('initialReads: %s', formatException())
                 # call all read functions a first time
                 for m in polled_modules:
                     for mobj, rfunc, _ in m.pollInfo.polled_parameters:
